@@ -204,6 +204,9 @@ func monitorVal(rep *Report, r *ValRun) valMonResult {
 			}
 		case "register":
 			if s.Verdict == "OK" {
+				if _, dup := plans[op.PH]; dup {
+					viol(i, "C14:duplicate-height-registered", fmt.Sprintf("a second plan was registered for height %d", op.PH))
+				}
 				plans[op.PH] = planInfo{op.Op, op.Key, op.Execs}
 				if op.Pid == 0 || op.PH == 0 || op.Op == 0 || op.Key == 0 {
 					viol(i, "C14:malformed-plan-registered", "a malformed plan was registered")
